@@ -27,11 +27,13 @@ def eraseBufs (bufs : List Bytes) (missing : List Nat) (off cap : Nat) : List By
 def MissingOK (k m : Nat) (missing : List Nat) : Prop :=
   missing.Pairwise (· < ·) ∧ ∀ x ∈ missing, x < k + m
 
-/-- decode / reconstruct contract relative to a tolerance predicate on the missing list. -/
-structure DecodeOK (be : Backend) (k m : Nat) (tol : List Nat → Prop) : Prop where
-  decode : ∀ bs dataP parP missing, IsStripe be k m bs dataP parP → MissingOK k m missing → tol missing →
+/-- decode / reconstruct contract relative to a tolerance predicate on the missing list and a
+    predicate on the block size (`bsOK`: e.g. even for the 16-bit Reed–Solomon code; the front end
+    only ever passes `blockSize`, a multiple of the word size). -/
+structure DecodeOK (be : Backend) (k m : Nat) (tol : List Nat → Prop) (bsOK : Nat → Prop) : Prop where
+  decode : ∀ bs dataP parP missing, bsOK bs → IsStripe be k m bs dataP parP → MissingOK k m missing → tol missing →
     be.decode (eraseBufs dataP missing 0 bs) (eraseBufs parP missing k bs) missing bs = .ok (dataP, parP)
-  reconstruct : ∀ bs dataP parP missing dest, IsStripe be k m bs dataP parP → MissingOK k m missing →
+  reconstruct : ∀ bs dataP parP missing dest, bsOK bs → IsStripe be k m bs dataP parP → MissingOK k m missing →
     tol missing → dest ∈ missing →
     ∃ d' p', be.reconstruct (eraseBufs dataP missing 0 bs) (eraseBufs parP missing k bs) missing dest bs = .ok (d', p') ∧
       d'.length = k ∧ p'.length = m ∧ (d' ++ p').getD dest [] = (dataP ++ parP).getD dest []
@@ -39,19 +41,19 @@ structure DecodeOK (be : Backend) (k m : Nat) (tol : List Nat → Prop) : Prop w
 /-- no-silent-corruption contract: for any missing list the front end can pass (at most m
     entries), the operation does not fault, and a successful decode / reconstruct returns the true
     payloads (for the destination, in the case of reconstruct). -/
-structure DecodeSound (be : Backend) (k m : Nat) : Prop where
-  decode : ∀ bs dataP parP missing d' p', IsStripe be k m bs dataP parP → MissingOK k m missing →
+structure DecodeSound (be : Backend) (k m : Nat) (bsOK : Nat → Prop) : Prop where
+  decode : ∀ bs dataP parP missing d' p', bsOK bs → IsStripe be k m bs dataP parP → MissingOK k m missing →
     missing.length ≤ m →
     be.decode (eraseBufs dataP missing 0 bs) (eraseBufs parP missing k bs) missing bs = .ok (d', p') →
     d' = dataP
-  decode_nocrash : ∀ bs dataP parP missing, IsStripe be k m bs dataP parP → MissingOK k m missing →
+  decode_nocrash : ∀ bs dataP parP missing, bsOK bs → IsStripe be k m bs dataP parP → MissingOK k m missing →
     missing.length ≤ m →
     be.decode (eraseBufs dataP missing 0 bs) (eraseBufs parP missing k bs) missing bs ≠ .error .crash
-  reconstruct : ∀ bs dataP parP missing dest d' p', IsStripe be k m bs dataP parP → MissingOK k m missing →
+  reconstruct : ∀ bs dataP parP missing dest d' p', bsOK bs → IsStripe be k m bs dataP parP → MissingOK k m missing →
     missing.length ≤ m → dest ∈ missing →
     be.reconstruct (eraseBufs dataP missing 0 bs) (eraseBufs parP missing k bs) missing dest bs = .ok (d', p') →
     d'.length = k ∧ p'.length = m ∧ (d' ++ p').getD dest [] = (dataP ++ parP).getD dest []
-  reconstruct_nocrash : ∀ bs dataP parP missing dest, IsStripe be k m bs dataP parP → MissingOK k m missing →
+  reconstruct_nocrash : ∀ bs dataP parP missing dest, bsOK bs → IsStripe be k m bs dataP parP → MissingOK k m missing →
     missing.length ≤ m → dest ∈ missing →
     be.reconstruct (eraseBufs dataP missing 0 bs) (eraseBufs parP missing k bs) missing dest bs ≠ .error .crash
 
